@@ -379,6 +379,7 @@ def run(ctx):
                 emits.append((b, s))
     ctx.ob("R4", "emission-site", len(emits) == 1, "Argument construction sites in the whitespace reader: %d" % len(emits), fn=ws, nontrivial=False)
     through = set(start_blocks)
+    by_emptiness = set()
     for b in ws.reachable():
         t = ws.blocks[b].term
         if t.k != "switch":
@@ -394,12 +395,22 @@ def run(ctx):
             for lab, tg in prim.switch_edges(ws, b):
                 if lab == 0:
                     through.add(tg)                      # !result.is_empty()
+                    by_emptiness.add(tg)
     for b, s in emits:
         ok = prim.must_pass(ws, 0, [b], through)
         wit = None if ok else prim.path_avoiding(ws, 0, [b], through)
         ctx.ob("R4", "no-argument-without-start", ok,
                "a path reaches Ok(Some(Argument)) without any token-start event (push to result / opening quote / backslash) and without the true edge of a flag set only at such events: blocks %s — "
                "an argument that is not in the input (e.g. for trailing blanks before end of input)" % (wit,), fn=ws, where=prim.site(ws, b, s), how="must-pass (%d token-start blocks, %d guard edges)" % (len(start_blocks), len(through) - len(start_blocks)))
+    # ... and the decision must not rest on `result` being non-empty alone: an opening quote starts an argument without
+    # putting a byte into it, so `''` and `""` are arguments (empty ones) only if something other than the collected bytes
+    # remembers that an argument was begun
+    if by_emptiness and esc_some_blocks:
+        for b, s in emits:
+            ok2 = prim.must_pass(ws, 0, [b], through - by_emptiness)
+            ctx.ob("R4", "quoted-empty-argument-is-an-argument", ok2,
+                   "whether a separator or the end of input delivers an argument is decided (on some path) only by `!result.is_empty()`; an opening quote begins an argument without adding a byte, so `''` / `\"\"` would be dropped "
+                   "(xargs passes them on as empty arguments)", fn=ws, where=prim.site(ws, b, s), how="must-pass without the emptiness test")
     ctx.floor("R4", "token-start event blocks", len(start_blocks), 5)
     # the converse: whatever puts a byte into the argument (or opens a quote) raises every flag the emission relies on
     # before the next byte is looked at — otherwise the separator test, or the end of input, sees "no argument yet"
